@@ -573,6 +573,9 @@ func (ce *callEngine) call(ctx context.Context, params, results []uint64) (_ []u
 			return nil, m.FailIfClosed()
 		default:
 		}
+		if err := m.FailIfClosed(); err != nil {
+			return nil, err
+		}
 	}
 
 	if ctx.Value(expctxkeys.EnableSnapshotterKey{}) != nil {
